@@ -1177,12 +1177,12 @@ fn main() {
     let batch: usize = std::env::var("VH_BATCH").ok().and_then(|s| s.parse().ok()).unwrap_or(128);
     let mut pending: Vec<String> = Vec::new();
     let mut pending_bytes = 0usize;
-    fn flush_batch(out: &mut std::io::BufWriter<std::fs::File>, pending: &mut Vec<String>, n: u64) {
+    fn flush_batch(out: &mut std::io::BufWriter<std::fs::File>, pending: &mut Vec<String>, n: u64, plain: bool) {
         if pending.is_empty() {
             return;
         }
         let base = n - pending.len() as u64;
-        if pending.len() == 1 {
+        if plain {
             out.write_all(pending[0].as_bytes()).unwrap();
         } else {
             write!(out, "{{\"k\":\"batch\",\"base\":{},\"items\":[{}]}}", base, pending.join(",")).unwrap();
@@ -1202,7 +1202,7 @@ fn main() {
         pending.push(s);
         n += 1;
         if pending.len() >= batch || pending_bytes > (1 << 20) {
-            flush_batch(out, &mut pending, n);
+            flush_batch(out, &mut pending, n, batch <= 1);
             pending_bytes = 0;
         }
     };
@@ -1236,7 +1236,7 @@ fn main() {
                 }
             }
             drop(run);
-            flush_batch(&mut out, &mut pending, n);
+            flush_batch(&mut out, &mut pending, n, batch <= 1);
             for l in tlc_tail {
                 println!("TLC| {}", l);
             }
@@ -1250,7 +1250,7 @@ fn main() {
             let parts = args[4].clone();
             drive(seed, &tier, &parts, &mut |c| run(c, &mut out));
             drop(run);
-            flush_batch(&mut out, &mut pending, n);
+            flush_batch(&mut out, &mut pending, n, batch <= 1);
         }
         _ => usage(),
     }
